@@ -18,13 +18,15 @@ RULE = ("streams of calls (motif name, graph, root, substitution for phi and for
         "with 6-7 arbitrarily labelled vertices and <= 11 edges; thorough: every graph on <= 5 vertices x every root; "
         "same-named motif re-evaluated with other roots / phi / u later in the stream, in half of the streams on the SAME "
         "networkx object with only the u attributes re-installed; graphs carry node / edge / graph attributes and are "
-        "compared before/after every call (data and iteration order); a malformed stream (root not in "
+        "compared before/after every call (data and iteration order); in 40% of the streams a second (decoy) evaluator is "
+        "alive and fed other motifs under the same names; a third of the small graphs and all random ones carry "
+        "non-contiguous labels up to 257 in shuffled insertion order; a malformed stream (root not in "
         "the motif). Non-trivial = the call's motif contains a cycle and the polynomial has >= 6 monomials; distinct "
         "by (nodes, edges, root, substitution)")
 EXHAUSTIVE = {"quick": True, "thorough": True}
-EXPLANATION = ("C15_identity_upto_5: polynomial identity auto = expectation for ALL 1100 labelled graphs on <= 5 "
+EXPLANATION = ("C15_enum_general: enumeration correct for all sizes and schedules; C15_identity_upto_5: polynomial identity auto = expectation for ALL 1100 labelled graphs on <= 5 "
                "vertices and every root (reflection, lifted through ring_correct to all rational phi, u); "
-               "C15_history, exact_in_unit, expectation_rec general; beyond 5 vertices the identity is checked per "
+               "C15_history, C15_exact_in_unit, C15_expectation_rec general; beyond 5 vertices the identity is checked per "
                "run by the verified checker on the implementation's polynomial (6-7 vertices), not proved: "
                "C15_full stays a Definition. Correspondence exhaustive over all graphs <= 4 (quick) / <= 5 (thorough) "
                "vertices x roots.")
@@ -43,7 +45,8 @@ LEVEL_TEXT = (
     "not) and every root the model's automated equation equals the exact expectation (explicit sum over all edge "
     "subsets) for ALL rational phi and heterogeneous u (polynomial identity by vm_compute reflection + ring_correct); "
     "C15_enum_ok_upto_5 - the backtracking enumeration lists every connected vertex set containing the root exactly "
-    "once. GENERAL (all sizes): C15_history - on one evaluator, for every call history in which equal names denote "
+    "once. GENERAL (all sizes): C15_enum_general - for every graph and every iteration-order schedule the enumeration "
+    "returns only vertex lists grown from the root and every such vertex set exactly once; C15_history - on one evaluator, for every call history in which equal names denote "
     "equal motifs, every returned value equals the value of a fresh evaluator (cache invariant); C15_exact_in_unit - "
     "0<=phi<=1, 0<=u<=1 => 0 <= expectation <= 1; C15_expectation_rec - the edge-by-edge recursive form equals the "
     "explicit sum; C15_check_sound - the checker run on the implementation's polynomial accepts only polynomials equal "
@@ -130,7 +133,7 @@ def _stream(rng, graphs, all_roots=True, extra_subs=1, bad_roots=False):
         if bad_roots:
             calls.append(_call(name, nodes, edges, max(nodes) + 1 + rng.randint(0, 2), _ident_sub(nodes)))
     rng.shuffle(calls)
-    return {"calls": calls, "reuse": rng.random() < 0.5}
+    return {"calls": calls, "reuse": rng.random() < 0.5, "decoy": rng.random() < 0.4}
 
 
 def _rand_connected(rng, n, max_edges, labels):
@@ -154,6 +157,20 @@ def _rand_connected(rng, n, max_edges, labels):
     return nodes, edges
 
 
+LABELS = list(range(0, 12)) + [15, 16, 17, 31, 32, 33, 63, 64, 65, 100, 257]
+
+
+def _relabel(rng, nodes, edges):
+    """non-contiguous labels beyond the small-int range, shuffled insertion order, random edge orientation"""
+    new = rng.sample(LABELS, len(nodes))
+    mp = dict(zip(nodes, new))
+    ns = [mp[v] for v in nodes]
+    rng.shuffle(ns)
+    es = [[mp[a], mp[b]] if rng.random() < 0.5 else [mp[b], mp[a]] for a, b in edges]
+    rng.shuffle(es)
+    return ns, es
+
+
 DIAMOND = ([0, 1, 2, 3], [[0, 1], [0, 2], [1, 2], [1, 3], [2, 3]])
 K4 = ([0, 1, 2, 3], [list(p) for p in _all_pairs(4)])
 C5 = ([0, 1, 2, 3, 4], [[0, 1], [1, 2], [2, 3], [3, 4], [4, 0]])
@@ -172,7 +189,7 @@ def corpus():
         calls.append(_call(name, nodes, edges, nodes[1], {"phi": [0, 2, 1], "u": [[nodes[0], [0, 3, 2]]]}))
         calls.append(_call(name, nodes, edges, nodes[2], {"phi": [1, 1, 0], "u": [[v, [1, nodes[0] + 2, 0]] for v in nodes]}))
     out.append({"calls": calls, "reuse": True})
-    out.append({"calls": calls, "reuse": False})
+    out.append({"calls": calls, "reuse": False, "decoy": True})
     out.append({"calls": [_call(0, *HOUSE, r, _ident_sub(HOUSE[0])) for r in HOUSE[0]]})
     # two different motifs on the same vertex labels, alternating (cache keys must contain the name)
     tri_tail = ([0, 1, 2, 3], [[0, 1], [1, 2], [0, 2], [2, 3]])
@@ -200,6 +217,8 @@ def generate(rng, tier):
         for es in _graphs_on(k):
             graphs.append((list(range(k)), es))
     rng.shuffle(graphs)
+    # identity is not position: a third of them relabelled (non-contiguous labels up to 257, shuffled insertion order)
+    graphs = [_relabel(rng, ns, es) if rng.random() < 0.33 else (ns, es) for ns, es in graphs]
     i = 0
     while i < len(graphs):
         n = rng.randint(3, 6)
@@ -217,9 +236,9 @@ def generate(rng, tier):
         gs = []
         for _ in range(rng.randint(1, 3)):
             n = rng.choice([6, 6, 7])
-            gs.append(_rand_connected(rng, n, rng.randint(n - 1, 11 if tier == "thorough" else 10), list(range(0, 12))))
+            gs.append(_rand_connected(rng, n, rng.randint(n - 1, 11 if tier == "thorough" else 10), LABELS))
         if rng.random() < 0.5:
-            gs.append(_rand_connected(rng, rng.randint(2, 5), 7, list(range(0, 12))))
+            gs.append(_rand_connected(rng, rng.randint(2, 5), 7, LABELS))
         yield _stream(rng, gs, all_roots=False, extra_subs=2)
     # (4) malformed stream: roots outside the motif interleaved with good calls
     for _ in range(10 if tier == "quick" else 60):
@@ -259,10 +278,22 @@ def impl(case):
     import networkx as nx
     from gcmpy.message_passing.equations.automated_equation import AutomatedEquation
     ae = AutomatedEquation()
+    # a second evaluator alive at the same time, fed DIFFERENT motifs under the SAME names (state must be per object)
+    decoy = AutomatedEquation() if case.get("decoy") else None
     obs = []
     graphs = {}
-    for call in case["calls"]:
+    for k, call in enumerate(case["calls"]):
         name = f"motif{call['name']}"
+        if decoy is not None and call["root"] in call["nodes"] and len(call["nodes"]) >= 2:
+            D = nx.Graph(name=name)
+            ns = call["nodes"]
+            D.add_nodes_from(ns)
+            D.add_edges_from([(ns[i], ns[i + 1]) for i in range(len(ns) - 1)] if k % 2 else [(ns[0], v) for v in ns[1:]])
+            nx.set_node_attributes(D, {v: 1 for v in ns}, "u")
+            try:
+                decoy.automated_equation(D, 0.5, call["root"])
+            except Exception:  # noqa: BLE001
+                pass
         if case.get("reuse") and name in graphs:
             # the SAME graph object again: the caller only re-installs the u values (as MessagePassing-like drivers do)
             G = graphs[name]
@@ -434,7 +465,7 @@ def nontrivial_key(case, impl_obs):
 
 def shrink(case):
     for c in _shrink(case):
-        yield dict(c, reuse=case.get("reuse", False))
+        yield dict(c, reuse=case.get("reuse", False), decoy=case.get("decoy", False))
 
 
 def _shrink(case):
